@@ -202,7 +202,9 @@ def _same_polygon(a, b):
     return False
 
 
-def check_3d(pp, tmp, polys, domain_box):
+def check_3d(pp, tmp, polys, domain_box, modify=False):
+    """modify: the geometry of the first fracture is changed after the network was built (its polygon is shrunk towards its centroid);
+    what is written must be the CURRENT geometry of the network"""
     fracs = []
     for p in polys:
         ok, f = _call(lambda: pp.PlaneFracture(p.copy()))
@@ -213,6 +215,10 @@ def check_3d(pp, tmp, polys, domain_box):
     ok, net = _call(lambda: pp.create_fracture_network(fracs, dom) if dom is not None else pp.create_fracture_network(fracs))
     if not ok:
         return None
+    if modify:
+        f0 = net.fractures[0]
+        cen = np.mean(f0.pts, axis=1, keepdims=True)
+        f0.pts = cen + 0.5 * (f0.pts - cen)
     written = [np.array(f.pts, dtype=float) for f in net.fractures]
     fn = Path(tmp) / "n3.csv"
     ok, r = _call(lambda: net.to_csv(fn, dom) if dom is not None else net.to_csv(fn))
@@ -371,13 +377,14 @@ def run(rep):
                         allp = np.hstack(polys)
                         box = {"xmin": float(allp[0].min() - 1), "xmax": float(allp[0].max() + 2), "ymin": float(allp[1].min() - 3), "ymax": float(allp[1].max() + 4),
                                "zmin": float(allp[2].min() - 5), "zmax": float(allp[2].max() + 6)}
-                    bad = check_3d(pp, tmp, polys, box)
+                    modify = it % 3 == 2
+                    bad = check_3d(pp, tmp, polys, box, modify=modify)
                     if bad is None:
                         sw.skip()
                         continue
-                    inp = {"polygons": [p.tolist() for p in polys], "domain": box}
-                    sw.case(("3d", tuple(p.tobytes() for p in polys), use_dom), nontrivial=len(polys) >= 2 or use_dom, sample=inp)
-                    sig = ("single fracture" if len(polys) == 1 else "several fractures") + (", with domain" if use_dom else ", no domain")
+                    inp = {"polygons": [p.tolist() for p in polys], "domain": box, "modify": modify}
+                    sw.case(("3d", tuple(p.tobytes() for p in polys), use_dom, modify), nontrivial=len(polys) >= 2 or use_dom, sample=inp)
+                    sig = ("single fracture" if len(polys) == 1 else "several fractures") + (", with domain" if use_dom else ", no domain") + (", geometry changed after construction" if modify else "")
                     for ob, det in bad:
                         rep.violation(ob, sig, inputs=inp, detail=det, confirmed=True)
 
@@ -419,7 +426,7 @@ def replay(data):
         if "columns" in inp:
             bad = check_txt(tmp, [(c["name"], c["values"], c["format"]) for c in inp["columns"]])
         elif "polygons" in inp:
-            bad = check_3d(pp, tmp, [np.array(p, dtype=float) for p in inp["polygons"]], inp["domain"])
+            bad = check_3d(pp, tmp, [np.array(p, dtype=float) for p in inp["polygons"]], inp["domain"], modify=bool(inp.get("modify")))
         elif "fractures" in inp:
             bad = check_2d(pp, tmp, [np.array(f, dtype=float) for f in inp["fractures"]], inp["with_header"], inp["domain"], inp["return_frac_id"])
         else:
